@@ -186,6 +186,8 @@ CATALOGUE = [
     ("C16", "c16-step-name-ignored", TR, "                if i + 1 < len(items):\n                    step_value", "                if i + 1 < len(items) and isinstance(items[i + 1], int):\n                    step_value", 1, "fire", "number or a name"),
     ("C12", "c12-relay-helper-no-isolation", CP, "            if (\n                node_dist_to_source <= span_limit\n                and node_dist_to_ideal <= 3.0\n                and node.can_route_network(network_id, wire_color)\n            ):", "            if (\n                node_dist_to_source <= span_limit\n                and node_dist_to_ideal <= 3.0\n            ):", 1, "fire", "can_route_network"),
     ("C15", "c15-decl-typed-by-global", SL, "            if symbol is not None and symbol.defined_at is not stmt:\n                # Declared in a function or loop body: the name found is somebody else's\n                symbol = None\n", "", 1, "fire", "C15-R19"),
+    ("C04", "c04-loop-input-shares-red", PL, "                                if source_id != entity_id:\n                                    locked[(source_id, feedback_signal)] = \"green\"\n", "                                pass\n", 1, "fire", "C04-R10"),
+    ("C01", "c01-merge-operand-default-red", CP, "                if edge.originating_merge_id == source_entity_id\n", "                if False\n", 1, "fire", "C01-R16"),
     ("C10", "c10-remainder-sign", "dsl_compiler/src/common/int32.py", "    return left - right * trunc_div(left, right)", "    remainder = abs(left) % abs(right)\n    return -remainder if (left < 0) != (right < 0) else remainder", 1, "fire", "C10-R17"),
     ("C11", "c11-remainder-sign", "dsl_compiler/src/common/int32.py", "    return left - right * trunc_div(left, right)", "    remainder = abs(left) % abs(right)\n    return -remainder if (left < 0) != (right < 0) else remainder", 1, "fire", "witness"),
 ]
